@@ -273,6 +273,7 @@ def _options(rng, fmt, A):
         o["ppq"] = o["unit"] if style in ("ppq", "both") else None
         o["durppq"] = style in ("durppq", "both")
         o["ppq_style"] = style
+        o["grace_durppq"] = o["durppq"] and rng.random() < 0.4
     else:
         o = {"staff": rng.random() < 0.8, "first_bar": rng.random() < 0.7, "final": rng.choice(["==", "==", "=", None]),
              "natural": rng.random() < 0.5, "keyname": rng.random() < 0.3, "refrec": rng.random() < 0.3,
